@@ -258,6 +258,29 @@ static void run_abort(hctx* h, fcase* fc, int at) {
     if (exists) unlink(path);
     h->n_lines++;
 }
+/* abort of a writer with a WIDE schema after `nrg` completed row groups: the per-row-group metadata (one entry per column) is
+ * then larger than the default block of the writer's arena and goes into blocks of its own - which abort must release too */
+static void run_abort_wide(hctx* h, int ncols, int nrg) {
+    char path[128]; snprintf(path, sizeof path, "/tmp/verif_c18_%d_aw.parquet", (int)getpid());
+    fprintf(h->out, "abortw ncols=%d nrg=%d", ncols, nrg); h_call(h);
+    carquet_error_t err; memset(&err, 0, sizeof err);
+    carquet_schema_t* sc = carquet_schema_create(&err);
+    for (int i = 0; sc && i < ncols; i++) { char nm[24]; snprintf(nm, sizeof nm, "w%d", i); (void)!carquet_schema_add_column(sc, nm, CARQUET_PHYSICAL_INT32, NULL, CARQUET_REPETITION_REQUIRED, 0); }
+    carquet_writer_options_t wo; carquet_writer_options_init(&wo);
+    carquet_writer_t* w = sc ? carquet_writer_create(path, sc, &wo, &err) : NULL;
+    int okw = w != NULL;
+    for (int g = 0; w && g < nrg; g++) {
+        for (int c = 0; c < ncols; c++) { int32_t v[2] = { g * 1000 + c, c - g }; if (carquet_writer_write_batch(w, c, v, 2, NULL, NULL) != CARQUET_OK) okw = 0; }
+        if (carquet_writer_new_row_group(w) != CARQUET_OK) okw = 0;
+    }
+    if (w) carquet_writer_abort(w);
+    struct stat sb; int exists = stat(path, &sb) == 0;
+    if (sc) carquet_schema_free(sc);
+    int leak = __lsan_do_recoverable_leak_check ? __lsan_do_recoverable_leak_check() : 0;
+    fprintf(h->out, " | writes_ok=%d removed=%d p_no_file=%d p_no_leak=%d\n", okw, !exists, !exists, !leak);
+    if (exists) unlink(path);
+    h->n_lines++;
+}
 /* many small row groups in one writer: 9..19 of them, one or two REQUIRED fixed-width columns */
 static void many_rg_case(hctx* h, fcase* fc, int* rg_end, int* nrg_out) {
     memset(fc, 0, sizeof *fc);
@@ -392,6 +415,8 @@ static void gen_c18(hctx* h) {
         run_abort(h, &fc, fc.nsteps - 1); run_abort(h, &fc, fc.nsteps);
         free_case(&fc);
     }
+    { static const int wide[] = { 103, 120, 210 };
+      for (int wi = 0; wi < (h->thorough ? 3 : 2); wi++) for (int g = 2; g <= (h->thorough ? 6 : 4); g++) run_abort_wide(h, wide[wi] + (int)h_below(h, 9), g); }
     long files = h->thorough ? 100 : 8;
     for (long i = 0; i < files; i++) {
         fcase fc; gen_case(h, &fc, 1);
@@ -476,6 +501,7 @@ static int replay_c05sink(hctx* h, const h_line* l) {
 const h_component comp_c05sink = { "c05sink", gen_c05sink, replay_c05sink };
 
 static int replay_c18(hctx* h, const h_line* l) {
+    if (!strcmp(l->op, "abortw")) { run_abort_wide(h, (int)h_ll(h_in(l, "ncols")), (int)h_ll(h_in(l, "nrg"))); return 1; }
     if (strcmp(l->op, "trunc") && strcmp(l->op, "sink") && strcmp(l->op, "abort")) return 0;
     fcase fc; if (parse_case(l, &fc)) { fprintf(stderr, "bad case\n"); return 1; }
     if (!strcmp(l->op, "trunc")) run_trunc(h, &fc);
